@@ -222,6 +222,8 @@ def _mutate(res, how):
       del res[key]
   else:
     for q in res.values():
+      if not isinstance(q, list):
+        continue
       if how == 'clear_lists':
         del q[:]
       elif how == 'pop_first' and q:
